@@ -18,17 +18,17 @@ package statuschecker
 // a replacement of a local certificate in error.
 //@ spec fn contradicts(lN bool, lH int, lID Hash, lE bool, aN bool, aH int, aID Hash) bool = !lN && (aN || aH < lH || aH > lH + 1 || (aH == lH && aID != lID && !lE))
 
-//@ func (i *initialStatus) checkAgglayerConsistenceCerts
+//@ func (i *initialStatus) checkAgglayerConsistenceCerts (i)
 //@   props C13
 //@   requires i != nil
 //@   ensures[consistency] (result != nil) == aggInconsistent(i.SettledCert == nil, i.SettledCert.Height, i.SettledCert.Status == agglayertypes.InError, i.PendingCert == nil, i.PendingCert.Height, i.PendingCert.Status == agglayertypes.InError)
 
-//@ func (i *initialStatus) getLatestAggLayerCert
+//@ func (i *initialStatus) getLatestAggLayerCert (i)
 //@   props C13
 //@   requires i != nil
 //@   ensures[latest] result == ite(i.PendingCert == nil, i.SettledCert, i.PendingCert)
 
-//@ func (i *initialStatus) process
+//@ func (i *initialStatus) process (i)
 //@   props C13
 //@   requires i != nil && i.log != nil
 //@   requires i.LocalCert != nil ==> i.LocalCert.Height < 18446744073709551615
@@ -76,7 +76,7 @@ package statuschecker
 //@   modifies nothing
 
 // one certificate: the local record takes the Agglayer's status, and the store is written exactly when it differs
-//@ func (c *certStatusChecker) updateCertificateStatus
+//@ func (c *certStatusChecker) updateCertificateStatus (c, ctx, localCert, agglayerCert)
 //@   props C02 C13
 //@   requires c != nil && c.log != nil && c.storage != nil && localCert != nil && agglayerCert != nil
 //@   modifies localCert.Status, localCert.UpdatedAt, storedStatus, statusWrites
@@ -88,7 +88,7 @@ package statuschecker
 // the poll: "nothing pending" is answered only when the store could be read, every open certificate was looked up at
 // the Agglayer, every one of them is now closed there, and every changed status reached the store; any failure on the
 // way answers "pending" (so nothing is submitted)
-//@ func (c *certStatusChecker) CheckPendingCertificatesStatus
+//@ func (c *certStatusChecker) CheckPendingCertificatesStatus (c, ctx)
 //@   props C02 C13
 // the poll asks the store for every certificate still undecided (the list of undecided statuses is pinned with the types)
 //@   assert call:GetCertificateHeadersByStatus arg0 == agglayertypes.NonSettledStatuses
@@ -111,7 +111,7 @@ package statuschecker
 // A certificate known only to the Agglayer is rebuilt from its header: identity, verdict and exit roots are copied, the
 // block range is decoded from the metadata word the node itself wrote into the certificate (codec proved in
 // aggsender/types).
-//@ func newCertificateInfoFromAgglayerCertHeader
+//@ func newCertificateInfoFromAgglayerCertHeader (c)
 //@   props C13
 //@   requires c != nil ==> forall(i, 0, 32, 0 <= hb(c.Metadata)[i] && hb(c.Metadata)[i] <= 255)
 //@   modifies nothing
@@ -121,7 +121,7 @@ package statuschecker
 //@   ensures[identity-and-verdict-copied] (c != nil && result1 == nil) ==> result0 != nil && fresh(result0) && result0.Header != nil && fresh(result0.Header) && result0.Header.Height == c.Height && result0.Header.CertificateID == c.CertificateID && result0.Header.NewLocalExitRoot == c.NewLocalExitRoot && result0.Header.Status == c.Status && result0.Header.PreviousLocalExitRoot == c.PreviousLocalExitRoot
 //@   ensures[range-from-the-metadata] (c != nil && result1 == nil && (hb(c.Metadata)[0] == 1 || hb(c.Metadata)[0] == 2)) ==> result0.Header.FromBlock == beVal(hb(c.Metadata), 1, 8) && result0.Header.ToBlock == (beVal(hb(c.Metadata), 1, 8) + beVal(hb(c.Metadata), 9, 4)) % 18446744073709551616 && result0.Header.CreatedAt == beVal(hb(c.Metadata), 13, 4)
 
-//@ func (c *certStatusChecker) updateLocalStorageWithAggLayerCert
+//@ func (c *certStatusChecker) updateLocalStorageWithAggLayerCert (c, ctx, aggLayerCert)
 //@   props C13
 //@   requires c != nil && c.log != nil && c.storage != nil
 //@   requires aggLayerCert != nil ==> forall(i, 0, 32, 0 <= hb(aggLayerCert.Metadata)[i] && hb(aggLayerCert.Metadata)[i] <= 255)
@@ -130,7 +130,7 @@ package statuschecker
 //@   ensures[saved-once-with-the-agglayers-identity-and-verdict] (aggLayerCert != nil && result1 == nil) ==> savedCount == old(savedCount) + 1 && lastSaved.Height == aggLayerCert.Height && lastSaved.CertificateID == aggLayerCert.CertificateID && lastSaved.NewLocalExitRoot == aggLayerCert.NewLocalExitRoot && lastSaved.Status == aggLayerCert.Status && lastSaved.PreviousLocalExitRoot == aggLayerCert.PreviousLocalExitRoot
 //@   ensures[error-saves-nothing] result1 != nil ==> savedCount == old(savedCount) && lastSaved == old(lastSaved)
 
-//@ func (c *certStatusChecker) executeInitialStatusAction
+//@ func (c *certStatusChecker) executeInitialStatusAction (c, ctx, action, localCert)
 //@   props C13
 //@   requires c != nil && c.log != nil && c.storage != nil && action != nil
 //@   requires action.action == InitialStatusActionUpdateCurrentCert ==> localCert != nil && action.cert != nil
@@ -151,7 +151,7 @@ package statuschecker
 //@ interface github.com/agglayer/aggkit/agglayer.AggLayerClientRecoveryQuerier.GetLatestPendingCertificateHeader (self, ctx, networkID)
 //@   modifies nothing
 //@   ensures result1 == nil ==> result0 == aggLatestPending
-//@ func newInitialStatus
+//@ func newInitialStatus (ctx, log, networkID, storage, aggLayerClient)
 //@   props C13
 //@   requires log != nil && storage != nil && aggLayerClient != nil
 //@   modifies nothing
@@ -167,7 +167,7 @@ package statuschecker
 //@   modifies nothing
 //@   ensures result1 != nil ==> result0 == nil
 //@   ensures result1 == nil ==> result0 != nil && result0.SettledCert == aggLatestSettled && result0.PendingCert == aggLatestPending && result0.LocalCert == storedLastCert && result0.log != nil
-//@ func (c *certStatusChecker) checkLastCertificateFromAgglayer
+//@ func (c *certStatusChecker) checkLastCertificateFromAgglayer (c, ctx)
 //@   props C13
 //@   requires c != nil && c.log != nil && c.storage != nil && c.agglayerClient != nil
 // domain of the three records (as for process(): the five declared statuses, heights below the maximum, an id determines
